@@ -181,6 +181,10 @@ func vkNewCache() *hugecache.Cache {
 	conf.Verbose = false
 	conf.Shards = 16
 	conf.HardMaxCacheSize = 64
+	// small initial allocation (the cache grows on demand up to the hard maximum): Reset, which the server calls
+	// whenever an epoch is replaced or removed, re-allocates the initial size - 64 MiB with the default window
+	conf.MaxEntriesInWindow = 2000
+	conf.MaxEntrySize = 500
 	c, err := hugecache.NewWithConfig(context.Background(), conf)
 	if err != nil {
 		panic(err)
